@@ -5,6 +5,8 @@
 
 package dtlcp
 
+import "net"
+
 // VerifNewSession builds a SessionState with the given id and master secret.
 func VerifNewSession(id, master []byte, vers, suite uint16) *SessionState {
 	return &SessionState{sessionId: id, masterSecret: master, vers: vers, cipherSuite: suite}
@@ -27,3 +29,80 @@ func VerifNewReplayWindow(cfg int) *VerifReplayWindow {
 
 // Check feeds one sequence number.
 func (v *VerifReplayWindow) Check(seq uint64) bool { return v.w.check(uint48(seq)) }
+
+// VerifFinished returns the Finished verify_data values recorded on the connection.
+func (c *Conn) VerifFinished() (client, server []byte) {
+	return append([]byte(nil), c.clientFinished[:]...), append([]byte(nil), c.serverFinished[:]...)
+}
+
+// ---- fragment buffer (C17)
+
+// VerifFragBuf wraps the unexported reassembly buffer.
+type VerifFragBuf struct{ fb *fragmentBuffer }
+
+func VerifNewFragBuf(total int) *VerifFragBuf { return &VerifFragBuf{newFragmentBuffer(uint24(total))} }
+func (v *VerifFragBuf) Add(off, length int, frag []byte) bool {
+	return v.fb.addFragment(uint24(off), uint24(length), frag)
+}
+func (v *VerifFragBuf) Complete() bool    { return v.fb.complete() }
+func (v *VerifFragBuf) Assembled() []byte { return append([]byte(nil), v.fb.assembled()...) }
+
+type verifRecorder struct{ msgs [][]byte }
+
+func (r *verifRecorder) Write(b []byte) (int, error) {
+	r.msgs = append(r.msgs, append([]byte(nil), b...))
+	return len(b), nil
+}
+func (r *verifRecorder) Sum() []byte { return nil }
+
+// VerifReadHandshakes feeds stream (concatenated handshake fragments as they would sit in the
+// handshake buffer after record processing) to a fresh server connection over pconn and calls
+// readHandshake up to calls times.  It returns the byte strings handed to the transcript, the
+// error of the last call, and the number / total size of pending reassembly buffers.
+func VerifReadHandshakes(pconn net.PacketConn, addr net.Addr, cfg *Config, stream []byte, calls int) (msgs [][]byte, err error, pending int, pendingBytes int) {
+	c := Server(pconn, addr, cfg)
+	c.handBuf.Write(stream)
+	rec := &verifRecorder{}
+	c.in.Lock()
+	defer c.in.Unlock()
+	for i := 0; i < calls; i++ {
+		if _, err = c.readHandshake(rec); err != nil {
+			break
+		}
+	}
+	for _, fb := range c.pendingFragments {
+		pending++
+		pendingBytes += len(fb.data) + len(fb.received)
+	}
+	return rec.msgs, err, pending, pendingBytes
+}
+
+// verifRawMsg is a handshake message with caller-supplied type and body.
+type verifRawMsg struct {
+	typ  uint8
+	body []byte
+	seq  uint16
+}
+
+func (m *verifRawMsg) marshal() ([]byte, error) {
+	return dtlcpMarshalHeader(m.typ, m.body, m.seq, 0, 0)
+}
+func (m *verifRawMsg) unmarshal([]byte) bool    { return false }
+func (m *verifRawMsg) messageType() uint8       { return m.typ }
+func (m *verifRawMsg) debug()                   {}
+func (m *verifRawMsg) setMessageSeq(seq uint16) { m.seq = seq }
+func (m *verifRawMsg) getMessageSeq() uint16    { return m.seq }
+
+// VerifWriteHandshake sends one handshake message (type, message_seq, body) through
+// writeHandshakeRecord of a fresh client connection using cfg (PMTU) and returns what the
+// transcript received.  The records go to pconn.
+func VerifWriteHandshake(pconn net.PacketConn, addr net.Addr, cfg *Config, typ uint8, seq uint16, body []byte) ([]byte, error) {
+	c := Client(pconn, addr, cfg)
+	rec := &verifRecorder{}
+	_, err := c.writeHandshakeRecord(&verifRawMsg{typ: typ, body: body, seq: seq}, rec)
+	var t []byte
+	if len(rec.msgs) > 0 {
+		t = rec.msgs[0]
+	}
+	return t, err
+}
